@@ -25,6 +25,7 @@ type ncSession struct {
 
 type ncConfig struct {
 	trace         bool // record the pipe's deliver / recv events
+	reuseBuf      bool // the transport hands out slices of one long-lived read buffer
 	inChannelAuth bool // the transport asks for the in-channel ssh login loop
 	onlcr         bool // the transport delivers CR LF for every LF of the server (a pty in front of ssh does)
 	adv10, adv11  bool
@@ -62,6 +63,7 @@ func newNcSession(c ncConfig) (*ncSession, error) {
 	pipe.MsgBounds = true // one read never carries bytes of two server messages
 	pipe.RecordTrace = c.trace
 	pipe.OnlCR = c.onlcr
+	pipe.ReuseBuf = c.reuseBuf
 	pipe.ReadDelay = c.devDelay
 
 	if c.timeout == 0 {
